@@ -158,11 +158,14 @@ CLAIMS["C10"] = dict(
          "verify_checksum rejects every single substitution in checksum and payload of sample strings and malformed "
          "lengths; checksum constants, alphabet, CHAR_MAP and the character->symbol expansion equal BIP-380 for every "
          "character in every group position; TapTreeBuilder records brace depths up to depth 128 with several bottom "
-         "pairs. Keys and hashes are opaque texts (their own Display/FromStr is not decided).",
+         "pairs; descriptor public-key expressions (single / extended keys x origin x derivation path x multipath step x "
+         "wildcard) round-trip, non-canonical spellings reach a fixed point, repeated multipath indexes are refused. Inside "
+         "miniscripts keys and hashes are opaque texts.",
     note="Trusted: spec/bip380.py (BIP-380 reference + model of the bech32 crate's engine); rust-bitcoin lock-time "
          "Display; evaluator semantics and its std string / fmt models; rustc THIR. The 2/4-error detection capability "
-         "follows from the BIP-380 generator (constants decided, code distance not re-proved). Descriptor key "
-         "expressions (xpub origins, derivation paths, multipath) and wallet-policy templates are not decided.",
+         "follows from the BIP-380 generator (constants decided, code distance not re-proved). Secret keys, base58 "
+         "decoding of extended keys (modelled as opaque text of the right shape) and wallet-policy templates are not "
+         "decided.",
     tech=STATIC + "abstract evaluation of printer and parser THIR over an exhaustive family of one- and two-level model "
                   "shapes (locality of both sides makes the family complete per level); constant comparison with BIP-380",
     engine="tablex")
